@@ -121,7 +121,7 @@ class PopulateKeys:
     """primary key from inline flags (+ named constraints) or from the table-level clause; every key column
     NOT NULL; no other attribute of any column changes; order and number of columns unchanged"""
     fn = "output.base_data.BaseData.populate_keys"
-    props = ["C02", "C01", "C12"]
+    props = ["C02", "C01", "C12", "C06"]      # C06: key columns are matched by their exact spelling, under both normalize_names settings
     cases = {"inline-keys": dict(clause=False), "key-clause": dict(clause=True)}
     loops = {
         "output.base_data.BaseData.populate_keys#0": dict(inv="inv_not_null", temps=["column"], reads=["self.primary_key"]),
